@@ -48,10 +48,10 @@ def Roundup (x : Dec) : Int := -((-(x.num * 10)) / ((10 ^ x.exp : Nat) : Int))
 def tenths (t : Int) : Dec := ⟨t, 1⟩
 
 /-- v3.1 Appendix A, the integer-based reading of `Roundup` (exact arithmetic; `round` = nearest integer, a tie
-    — which never occurs — going up):
+    going up — `Proofs` shows that no tie occurs on the equations' values):
     `int_input = round(x·100000); if int_input % 10000 = 0 then int_input/100000 else (floor(int_input/10000)+1)/10`,
-    again as a number of tenths. `Proofs/Score3Spec.lean` shows that it agrees with `Roundup` on every value the
-    equations feed to it. -/
+    again as a number of tenths. `Proofs/Score3Main3x.lean` (`appendixA_base/temporal/inner`) shows that it agrees
+    with `Roundup` on every value the equations feed to it. -/
 def RoundupA (x : Dec) : Int :=
   let int_input : Int := (x.num * 200000 + ((10 ^ x.exp : Nat) : Int)) / (2 * ((10 ^ x.exp : Nat) : Int))
   if int_input % 10000 = 0 then int_input / 10000 else int_input / 10000 + 1
